@@ -71,6 +71,12 @@ Print Assumptions C16_Fq_Fp_are_the_model.
    the n-dimensional chain rule, which is NOT formalised; on the implementation the determinant is
    measured by central differences on every run. *)
 
+(* The positions written into the parameters form a trajectory that ends at the returned position. *)
+Theorem C16_trace_ends_at_result : forall eps Minv grad L x,
+  last (leapfrog_trace NumR eps Minv grad L x) [] = fst (leapfrog NumR eps Minv grad L x).
+Proof. exact leapfrog_trace_last. Qed.
+Print Assumptions C16_trace_ends_at_result.
+
 (* The Hastings term returned by HMCOperator._step is K(p0) - K(p1), p1 the momentum returned by the
    integrator started from the drawn momentum p0; the positions it leaves are the integrator's. *)
 Theorem C16_hmc_hastings_is_dK : forall eps L Minv grad q0 p0,
@@ -109,7 +115,7 @@ Print Assumptions C16_energy_error_harmonic.
 (* Hence the energy error is eps^2 times a bounded quantity, uniformly in the number of steps:
    H_L - H_0 = eps^2 (k^2 mi / 8) ((q_L - mu)^2 - (q_0 - mu)^2), and for stable step sizes
    (eps^2 omega^2 < 4)   |H_L - H_0| <= eps^2 * (omega^2 / 4) H_0 / (1 - eps^2 omega^2 / 4). *)
-Theorem C16_energy_error_quadratic_in_eps : forall eps mi k mu L q p,
+Theorem C16_energy_error_partial : forall eps mi k mu L q p,
   0 < mi -> 0 < k -> eps * eps * (k * mi) < 4 ->
   forall q' p', leapfrog NumR eps (Diag [mi]) (gauss_grad NumR [[k]] [mu]) L ([q], [p]) = ([q'], [p']) ->
   Rabs (Hen mi k mu (q', p') - Hen mi k mu (q, p))
@@ -120,9 +126,12 @@ Proof.
   pose proof (harmonic_energy_bound eps mi k mu L (q, p) Hmi Hk Hst) as B.
   rewrite (surjective_pairing (iter L (hstep eps mi k mu) (q, p))) in B. rewrite E1, E2 in B. exact B.
 Qed.
-Print Assumptions C16_energy_error_quadratic_in_eps.
-(* energy_error_partial: for a general smooth target the O(eps^2) bound (backward error analysis) is
-   NOT proved here; on the implementation it is measured at eps, eps/2, eps/4 on every run. *)
+Print Assumptions C16_energy_error_partial.
+(* _partial: proved for quadratic potentials in one degree of freedom (by simultaneous diagonalisation
+   this is every Gaussian target, not formalised).  MISSING: for a general smooth target the full claim
+     exists C, forall eps small, |H(leapfrog eps (T/eps) x) - H x| <= C eps^2
+   (backward error analysis) is not proved; on the implementation the order is measured at
+   eps, eps/2, eps/4, ... on every run. *)
 
 (* The exact run used by the correspondence (gcd-free dyadic arithmetic, model/M_lf_oracle.v) IS the
    real-valued model of the theorems above (free theorem): reld r d  means  d is undefined or
@@ -177,10 +186,15 @@ Theorem C16_shear_jacobians_det_one : forall (K : comRingType) (n : nat) (l : se
   \det (shearsJ l) = 1.
 Proof. exact shearsJ_det. Qed.
 Print Assumptions C16_shear_jacobians_det_one.
-Theorem C16_leapfrog_matrix_det_one : forall (K : comRingType) (n : nat) (h h2 : K) (L : nat) (H M : 'M[K]_n),
+Theorem C16_volume_preserving_partial : forall (K : comRingType) (n : nat) (h h2 : K) (L : nat) (H M : 'M[K]_n),
   \det (shearsJ (leapfrog_shears h h2 L H M)) = 1.
 Proof. exact leapfrogJ_det. Qed.
-Print Assumptions C16_leapfrog_matrix_det_one.
+Print Assumptions C16_volume_preserving_partial.
+(* _partial: together with C16_shear_matrices_act_as_shears below this is "det Jacobian = 1" for every
+   linear gradient in every dimension, stated on mathcomp matrices rather than on the list model (the
+   two are the same composition of shears by C16_leapfrog_shear_decomposition; that identification and,
+   for nonlinear gradients, the n-dimensional chain rule are NOT formalised).  Dimension one is complete:
+   C16_volume_preserving_dim1. *)
 Theorem C16_shear_matrices_act_as_shears : forall (K : comRingType) (n : nat) (l : seq (shear K n)) (q p : 'cV[K]_n),
   shearsJ l *m col_mx q p =
   col_mx (foldl (fun x s => shear_act s x) (q, p) l).1 (foldl (fun x s => shear_act s x) (q, p) l).2.
